@@ -87,7 +87,12 @@ def classify_statement(stmt: str):
         if nxt_up == "NOT" and k + 1 < n and toks[k + 1].up in ("LIKE", "GLOB"):
             k += 1
             nxt_up = toks[k].up
-        if nxt_up in ("LIKE", "GLOB"):
+        if nxt_up == "NOT" and k + 1 < n and toks[k + 1].up == "BETWEEN":
+            k += 1
+            nxt_up = "BETWEEN"
+        if nxt_up == "BETWEEN":
+            out.append(("between", f"{operand} BETWEEN …"))
+        elif nxt_up in ("LIKE", "GLOB"):
             # pattern operand up to the next top-level keyword
             j = k + 1
             d = toks[k].depth
@@ -180,6 +185,7 @@ def rule_idioms(ctx):
     ctx.control([k for k, _ in classify_statement("SELECT 1 FROM node WHERE node.label COLLATE NOCASE = ?")] == ["collate"], "COLLATE NOCASE is classified", "classifier lost COLLATE")
     ctx.control([k for k, _ in classify_statement("SELECT 1 FROM node WHERE lower(label) = ?")] == ["casefold-function"], "lower(label) is classified", "classifier lost lower()")
     ctx.control([k for k, _ in classify_statement("SELECT 1 FROM node WHERE label >= ? AND label < ?")] == ["range"], "range is classified", "classifier lost range")
+    ctx.control([k for k, _ in classify_statement("SELECT 1 FROM node WHERE label BETWEEN ? AND ?")] == ["between"], "BETWEEN is classified", "classifier lost BETWEEN")
     ctx.control([k for k, _ in classify_statement("SELECT 1 FROM node WHERE substr(node.label, 1, 4) = ?")] == ["substr-prefix-eq"], "substr prefix is classified", "classifier lost substr")
 
     model = ctx.sql
@@ -229,6 +235,8 @@ def rule_idioms(ctx):
                 ctx.bad(fq, f"{idiom}: {detail}", "GLOB on a label: '*', '?', '[' in names act as wildcards", where=where)
             elif idiom in ("collate", "casefold-function"):
                 ctx.bad(fq, f"{idiom}: {detail}", "case-folding comparison of labels", where=where)
+            elif idiom == "between":
+                ctx.bad(fq, f"{idiom}: {detail}", "BETWEEN is inclusive at both ends: the path equal to dir_range_upper(P) (the sibling 'P0' of directory 'P/') is selected as being under P/", where=where)
             elif idiom == "open-range":
                 ctx.bad(fq, f"{idiom}: {detail}", "one-sided or unpaired range comparison on a label (accepted form: label >= P AND label < U)", where=where)
             else:
@@ -527,6 +535,7 @@ MUTANTS = [
     Mutant("root-unguarded-clean", "clean.py", replace_once('if tr_path == ".":', 'if tr_path == "":'), ("R-C18-4",)),
     Mutant("lower-label", "workflow.py", in_function("Workflow._find_owning_static_tree", replace_once(
         '"label = substr(?, 1, length(label))"', '"lower(label) = lower(substr(?, 1, length(label)))"')), ("R-C18-1", "R-C18-1o")),
+    Mutant("range-between", "scheduler.py", replace_once("WHERE onode.label >= target_dir.path\n                        AND onode.label < target_dir.upper", "WHERE onode.label BETWEEN target_dir.path AND target_dir.upper"), ("R-C18-1",)),
     Mutant("range-inclusive-upper", "scheduler.py", replace_once("AND onode.label < target_dir.upper", "AND onode.label <= target_dir.upper"), ("R-C18-1",)),
 ]
 
